@@ -189,6 +189,8 @@ struct Stats {
     audit_mismatch: u64,
     minimise_execs: u64,
     deaths: u64,
+    /// runs per value of each dimension of the simulated host
+    dims: BTreeMap<String, u64>,
 }
 
 fn add(a: &mut Counters, b: &Counters) {
@@ -347,6 +349,18 @@ pub fn child_main(a: ChildArgs) -> i32 {
             let script_opt: Option<&[Action]> = if script.is_empty() { None } else { Some(&script) };
             let res = oracle::run_forked(&plan, script_opt, &mut refs);
             *st.runs.entry(stratum.to_string()).or_default() += 1;
+            for d in [
+                format!("workers={}", plan.workers),
+                format!("globals={:?}", plan.globals),
+                format!("comments_store={:?}", plan.store),
+                format!("options={}", if plan.opts_per_task { "deserialised per file and dropped" } else { "deserialised once, cloned" }),
+                format!("worker_stacks={}", if plan.stack_kib.is_empty() { "64 MiB".to_string() } else if plan.stack_kib.iter().any(|k| *k <= 2048) { "mixed, some 2 MiB".to_string() } else { "mixed, 8-64 MiB".to_string() }),
+                format!("strategy={}", match &plan.strategy { Strategy::Random { .. } => "random", Strategy::Pct { .. } => "pct", Strategy::Script => "scripted / canonical" }),
+                format!("tasks={}", match plan.tasks.len() { 0..=3 => "1-3", 4..=8 => "4-8", _ => "9+" }),
+                format!("noise={}", if plan.tasks.iter().any(|t| !t.noise.is_zero()) { "some" } else { "none" }),
+            ] {
+                *st.dims.entry(d).or_default() += 1;
+            }
             let violations = oracle::violations_of(&plan, &mut refs, &res);
             let mut trace: Vec<Action> = vec![];
             match &res {
@@ -446,7 +460,7 @@ pub fn child_main(a: ChildArgs) -> i32 {
         "distinct_interleavings": inter_all.len(), "distinct_nontrivial": inter_nontrivial.len(), "fingerprints": fp_path,
         "audits": st.audits, "audit_mismatch": st.audit_mismatch, "minimise_execs": st.minimise_execs,
         "violations_total": violations_total, "solos_computed": refs.computed, "deaths": st.deaths, "skipped_after_deaths": skipped_after_deaths,
-        "samples": samples, "harness_errors": harness_errors,
+        "samples": samples, "harness_errors": harness_errors, "dims": st.dims,
     }}));
     let _ = fnv_str;
     0
